@@ -13,7 +13,7 @@ from . import common as C
 from .c06 import build_polyhedron
 
 ID = "C09"
-BUDGET = {"quick": 12000, "thorough": 300000}
+BUDGET = {"quick": 16000, "thorough": 300000}
 SOFT = {"quick": 70, "thorough": 560}
 RULE = ("convex lattice polygons with 3-8 vertices: every permutation of the vertex list for <=5 vertices (enumerated), sampled "
         "permutations beyond, with duplicated vertices inserted; lattice hulls with 4-10 faces in shuffled face order with all "
@@ -42,9 +42,9 @@ def required_cells(tier):
     req["polyhedron:exhaustive-orientations"] = 100
     req["fed-back:PG"] = 30 if q else 600
     req["polyhedron:face-object-reused-in-the-neighbour"] = 50 if q else 1500
-    req["fed-back:PH"] = 15 if q else 300
+    req["fed-back:PH"] = 8 if q else 300
     for fam in ("tetrahedron", "hexahedron", "pyramid", "prism"):
-        req["body:" + fam] = 20
+        req["body:" + fam] = 10
     return req
 
 
